@@ -64,8 +64,12 @@ def _dense(t_list, X):
 def _arr(comp):
     """Exact rationals -> array; integer dtype when the component asks for it (DenseValues keeps it)."""
     if comp.get("int"):
-        return np.array([[int(F(x)) for x in r] for r in comp["X"]], dtype=np.int64)
-    return np.array(fl(_Fm(comp["X"])))
+        A = np.array([[int(F(x)) for x in r] for r in comp["X"]], dtype=np.int64)
+    else:
+        A = np.array(fl(_Fm(comp["X"])))
+    if comp.get("layout") == "F":
+        A = np.asfortranarray(A)  # same numbers, column-major memory (e.g. a transposed view handed in by the caller)
+    return A
 
 
 def _irregular(pts, vals, labels=None):
@@ -217,7 +221,7 @@ def _dense_comp(rng: Rng, N, two_d=False, uniform=None):
     m = rng.randint(3, 10)
     X, ck = _curves(rng, N, m)
     X, integer = _maybe_int(rng, _affine(rng, X))
-    return dict(type="dense1", t=[rs(x) for x in _grid(rng, m, uniform)], X=_S(X), ck=ck, int=integer)
+    return dict(type="dense1", t=[rs(x) for x in _grid(rng, m, uniform)], X=_S(X), ck=ck, int=integer, layout=rng.choice(["C", "C", "F"]))
 
 
 def _irr_comp(rng: Rng, N, enc=None, lp_only=False):
@@ -276,6 +280,16 @@ def _basis_comp(rng: Rng, N, two_d=False, uniform=None):
 
 def gen_cases(rng: Rng, tier):
     n = dict(quick=200, thorough=2600)[tier]
+    # sizes just around typical block sizes / fast-path thresholds: many curves on a tiny grid (exact model stays cheap)
+    sizes = [33, 65, 129, 201, 251, 257, 513, 1025]
+    for N in (sizes if tier == "thorough" else [rng.choice([257, 513]), rng.choice([33, 65, 129, 201, 251, 1025])]):
+        opts = _opts(rng)
+        opts["integ"] = "trapz"
+        m = rng.randint(3, 4)
+        X, ck = _curves(rng, N, m, rng.choice(["rand", "zerocol"]))
+        X[-1] = [8 * x + 3 if x != X[0][j] else x for j, x in enumerate(X[-1])]  # an atypical last curve
+        X2, _ = _curves(rng, N, m)
+        yield dict(kind="dense1", type="dense1", t=[rs(x) for x in _grid(rng, m)], X=_S(X), ck=ck, int=False, layout="C", X2=_S(X2), sized=True, **opts)
     kinds = ["dense1", "basis1", "irreg", "multi", "dense2", "dense1", "irreg", "basis1", "multi", "basis2"]
     for k in range(n):
         kind = kinds[k % len(kinds)]
@@ -1209,6 +1223,10 @@ def classify(case, impl):
             break
     if case.get("int") or any(c.get("int") for c in case.get("comps", [])):
         tags.append("dtype:int64")
+    if case.get("layout") == "F" or any(c.get("layout") == "F" for c in case.get("comps", [])):
+        tags.append("layout:fortran")
+    if case.get("sized"):
+        tags.append("size-threshold:" + str(len(case["X"])))
     if isinstance(impl, dict):
         s = impl.get("standardize_adv")
         if isinstance(s, dict) and s.get("hits"):
